@@ -1,13 +1,1219 @@
-//! C19 — not implemented yet (stub so that props/mod.rs never has to change).
-use crate::engine::PropSpec;
+//! C19 — The local cache is transparent.
+//!
+//! Generated: a history of backup / forget / prune / check / snapshot lookups (`latest`, `latest~N`,
+//! id prefix, full id, several ids at once) / list / dump where every operation is assigned to a
+//! *cached* handle (fresh `Repository` with `cache_dir` = a per-case scratch directory, so the
+//! cache persists over the history) or an *uncached* handle on the same storage (the repository
+//! changes behind the cache), interleaved with *plant* operations on the cache directory: stale
+//! files (valid files of ids since removed from the repository), truncated / over-long files
+//! under existing ids, and foreign files (non-hex names, `-tmp-` leftovers, sub-directories,
+//! directories where a cache file should be, hex-named files of ids the repository never had).
+//!
+//! Oracle (differential): the same history with every operation uncached, started from a
+//! byte-identical copy of the initial storage. Operation by operation the results must be equal
+//! (snapshot (time, tree) instead of ids: file ids contain random nonces), and at the end the
+//! logical repository content must be equal. After every operation of the cached handle that
+//! listed snapshot / index files, the cache must hold no file of that type which the repository
+//! does not list, and none with a different size.
+
+use std::{
+    collections::{BTreeMap, BTreeSet},
+    fs,
+    path::{Path, PathBuf},
+    sync::Arc,
+};
+
+use bytes::Bytes;
+use proptest::prelude::*;
+use rustic_core::{
+    BackupOptions, CheckOptions, FileType, Id, Repository, RepositoryOptions,
+    repofile::{SnapshotFile, SnapshotId},
+};
+use serde::{Deserialize, Serialize};
+use vpcore::fmt::{BType, Id32, parse_pack, sha256};
+
+use crate::{
+    engine::{Ctx, DynSub, Outcome, PropSpec, Sub, guarded, pick_idx},
+    fsutil::Scratch,
+    r#gen::{Edit, TreeParams, apply_edit, edit, tree},
+    history::{Lim, PruneCfg, prune_cfg},
+    inspect::{BlobKey, index_view, reachable, snapshot_json},
+    membe::{OpKind, Storage, id_bytes, tidx},
+    model::{MNode, ReadSchedule},
+    repo::{
+        CheckVerdict, RepoCfg, RepoOpen, backends, backup_tree, estr, force_opts, init_repo,
+        read_snapshot, repo_cfg, snap_template,
+    },
+};
+
+/// known finding: a snapshot addressed by its full id is read from the cache without any listing
+pub const KEY_FULL_ID: &str = "full-id-lookup-trusts-cache";
+
+#[derive(Debug, Clone, Copy, PartialEq, Eq, PartialOrd, Ord, Serialize, Deserialize)]
+pub enum PType {
+    Snapshot,
+    Index,
+    Pack,
+}
+
+impl PType {
+    fn ft(self) -> FileType {
+        match self {
+            PType::Snapshot => FileType::Snapshot,
+            PType::Index => FileType::Index,
+            PType::Pack => FileType::Pack,
+        }
+    }
+    /// directory name inside the cache (written down here, not taken from the library)
+    fn dirname(self) -> &'static str {
+        match self {
+            PType::Snapshot => "snapshots",
+            PType::Index => "index",
+            PType::Pack => "data",
+        }
+    }
+    fn name(self) -> &'static str {
+        match self {
+            PType::Snapshot => "snapshot",
+            PType::Index => "index",
+            PType::Pack => "pack",
+        }
+    }
+}
+
+#[derive(Debug, Clone, Copy, PartialEq, Eq, Serialize, Deserialize)]
+pub enum FullApi {
+    /// `get_snapshot_from_str(<full id>)`
+    FromStr,
+    /// `get_snapshots(&[<full id>])`
+    Many,
+    /// `get_snapshots(&[<full id>, <12-char prefix of another snapshot>])`
+    Mixed(u16),
+}
+
+#[derive(Debug, Clone, Copy, PartialEq, Eq, Serialize, Deserialize)]
+pub enum SizeChange {
+    /// keep `len * k / 256` bytes of the valid content
+    Truncate(u8),
+    /// valid content followed by this many extra bytes
+    Extend(u16),
+    /// this many bytes that are not the valid content (length differs from the valid one)
+    Garbage(u16),
+}
+
+#[derive(Debug, Clone, Copy, PartialEq, Eq, Serialize, Deserialize)]
+pub enum Foreign {
+    /// files whose names are not 64 lower-case hex characters
+    NonHex(u8),
+    /// `<id>-tmp-` with half of the content of an existing file
+    TmpLeftover(u16),
+    /// 0: sub-directory with a file; 1: directory named like an id the repository never had;
+    /// 2: directory exactly where the cache file of an existing id belongs
+    SubDir(u8, u16),
+    /// a file at the canonical place of an id the repository never had
+    HexNeverHad { seed: u64, len: u16 },
+    /// a file named like an id the repository never had, but not in the shard directory of that
+    /// id: 0 = directly in the type directory, 1 = in the shard directory of another id
+    HexMisplaced { seed: u64, place: u8 },
+}
+
+#[derive(Debug, Clone, PartialEq, Eq, Serialize, Deserialize)]
+pub enum Plant {
+    Stale { tpe: PType, sel: u16 },
+    WrongSize { tpe: PType, sel: u16, change: SizeChange },
+    Foreign { tpe: PType, kind: Foreign },
+}
+
+#[derive(Debug, Clone, PartialEq, Eq, Serialize, Deserialize)]
+pub enum COp {
+    Backup { edits: Vec<Edit>, parent: bool },
+    /// forget snapshots selected from the live ones
+    Forget { sel: Vec<u16> },
+    Prune(PruneCfg),
+    Check { read_data: bool, trust_cache: bool },
+    /// `latest` / `latest~n`
+    Latest { n: u8 },
+    /// id prefix of `len` hex characters of a snapshot ever created (live or forgotten)
+    Prefix { sel: u16, len: u8, many: bool },
+    /// full id of a snapshot ever created (live or forgotten)
+    Full { sel: u16, api: FullApi },
+    List,
+    /// list a live snapshot and dump one of its files
+    Dump { snap: u16, file: u16 },
+    Plant(Plant),
+}
+
+#[derive(Debug, Clone, PartialEq, Eq, Serialize, Deserialize)]
+pub struct Step {
+    /// through the cached handle (ignored for plants; the reference run ignores it always)
+    pub cached: bool,
+    pub op: COp,
+}
+
+#[derive(Debug, Clone, Serialize, Deserialize)]
+pub struct Case {
+    pub cfg: RepoCfg,
+    pub tree: MNode,
+    pub ops: Vec<Step>,
+}
+
+// ---------------------------------------------------------------------------------------------
+// generator
+
+fn complete(p: &PruneCfg) -> bool {
+    matches!(p.max_unused, Lim::Pct(0) | Lim::Size(0))
+        && p.max_repack == Lim::Unlimited
+        && !p.keep_pack_1h
+        && p.repack_cacheable_only != Some(true)
+}
+
+fn ptype() -> BoxedStrategy<PType> {
+    prop_oneof![3 => Just(PType::Snapshot), 2 => Just(PType::Index), 2 => Just(PType::Pack)].boxed()
+}
+
+fn plant() -> BoxedStrategy<Plant> {
+    let foreign = prop_oneof![
+        2 => (0u8..6).prop_map(Foreign::NonHex),
+        2 => any::<u16>().prop_map(Foreign::TmpLeftover),
+        3 => (0u8..3, any::<u16>()).prop_map(|(v, s)| Foreign::SubDir(v, s)),
+        3 => (any::<u64>(), 0u16..600).prop_map(|(seed, len)| Foreign::HexNeverHad { seed, len }),
+    ];
+    prop_oneof![
+        3 => (ptype(), any::<u16>()).prop_map(|(tpe, sel)| Plant::Stale { tpe, sel }),
+        4 => (
+            ptype(),
+            any::<u16>(),
+            prop_oneof![
+                any::<u8>().prop_map(SizeChange::Truncate),
+                (1u16..400).prop_map(SizeChange::Extend)
+            ]
+        )
+            .prop_map(|(tpe, sel, change)| Plant::WrongSize { tpe, sel, change }),
+        3 => (ptype(), foreign).prop_map(|(tpe, kind)| Plant::Foreign { tpe, kind }),
+    ]
+    .boxed()
+}
+
+fn step(p: TreeParams) -> BoxedStrategy<Step> {
+    let with = |w: f64, op: BoxedStrategy<COp>| {
+        (prop::bool::weighted(w), op)
+            .prop_map(|(cached, op)| Step { cached, op })
+            .boxed()
+    };
+    let prune = (prune_cfg(), prop::bool::weighted(0.6)).prop_map(|(mut c, force)| {
+        if force {
+            c.max_unused = Lim::Pct(0);
+            c.max_repack = Lim::Unlimited;
+            c.keep_pack_1h = false;
+            c.repack_cacheable_only = None;
+        }
+        COp::Prune(c)
+    });
+    let api = prop_oneof![
+        3 => Just(FullApi::FromStr),
+        3 => Just(FullApi::Many),
+        1 => any::<u16>().prop_map(FullApi::Mixed),
+    ];
+    prop_oneof![
+        4 => with(0.5, (prop::collection::vec(edit(p), 0..3), any::<bool>())
+            .prop_map(|(edits, parent)| COp::Backup { edits, parent }).boxed()),
+        3 => with(0.4, prop::collection::vec(any::<u16>(), 1..3).prop_map(|sel| COp::Forget { sel }).boxed()),
+        3 => with(0.5, prune.boxed()),
+        2 => with(0.8, (prop::bool::weighted(0.3), any::<bool>())
+            .prop_map(|(read_data, trust_cache)| COp::Check { read_data, trust_cache }).boxed()),
+        2 => with(0.85, (0u8..3).prop_map(|n| COp::Latest { n }).boxed()),
+        2 => with(0.85, (any::<u16>(), 8u8..=40, any::<bool>())
+            .prop_map(|(sel, len, many)| COp::Prefix { sel, len, many }).boxed()),
+        4 => with(0.85, (any::<u16>(), api).prop_map(|(sel, api)| COp::Full { sel, api }).boxed()),
+        2 => with(0.85, Just(COp::List).boxed()),
+        2 => with(0.85, (any::<u16>(), any::<u16>()).prop_map(|(snap, file)| COp::Dump { snap, file }).boxed()),
+        6 => with(0.5, plant().prop_map(COp::Plant).boxed()),
+    ]
+    .boxed()
+}
+
+fn strategy(ctx: &Ctx) -> BoxedStrategy<Case> {
+    let len = if ctx.tier.is_thorough() { 18 } else { 11 };
+    repo_cfg()
+        .prop_flat_map(move |cfg| {
+            let mut p = super::c07::params(&cfg);
+            p.file_cap = 60_000;
+            (Just(cfg), tree(p), prop::collection::vec(step(p), 3..=len))
+        })
+        .prop_map(|(cfg, tree, ops)| Case { cfg, tree, ops })
+        .boxed()
+}
+
+// ---------------------------------------------------------------------------------------------
+// input-side plan: which snapshot (by ordinal of creation) every operation addresses, and the
+// predicate of the known finding. Nothing here looks at the library's output.
+
+#[derive(Debug, Clone, Default)]
+struct Resolved {
+    /// snapshot ordinals addressed by the operation
+    ords: Vec<usize>,
+    /// this operation matches the input-side predicate of KEY_FULL_ID
+    known_hit: bool,
+}
+
+fn lists_snapshots(op: &COp) -> bool {
+    match op {
+        COp::Prune(_) | COp::Check { .. } | COp::Latest { .. } | COp::Prefix { .. } | COp::List | COp::Dump { .. } => true,
+        COp::Full { api, .. } => matches!(api, FullApi::Mixed(_)),
+        COp::Backup { .. } | COp::Forget { .. } | COp::Plant(_) => false,
+    }
+}
+
+fn plan(c: &Case) -> (Vec<Resolved>, bool) {
+    // ordinal 0 = the initial backup (through the cached handle)
+    let mut created = 1usize;
+    let mut live: Vec<usize> = vec![0];
+    let mut forgotten: Vec<usize> = Vec::new();
+    // snapshots whose file may be in the cache (over-approximation)
+    let mut in_cache: BTreeSet<usize> = [0].into();
+    // snapshots whose cache entry went out of date since the cached handle last listed snapshots
+    let mut dirty: BTreeSet<usize> = BTreeSet::new();
+    let mut out = Vec::new();
+    let mut known = false;
+    for s in &c.ops {
+        let mut r = Resolved::default();
+        let cached = s.cached;
+        if cached && lists_snapshots(&s.op) {
+            dirty.clear();
+            in_cache.retain(|o| live.contains(o));
+        }
+        match &s.op {
+            COp::Backup { .. } => {
+                r.ords.push(created);
+                live.push(created);
+                if cached {
+                    in_cache.extend(live.iter().copied());
+                }
+                created += 1;
+            }
+            COp::Forget { sel } => {
+                for x in sel {
+                    if live.is_empty() {
+                        break;
+                    }
+                    let o = live.remove(pick_idx(*x, live.len()));
+                    forgotten.push(o);
+                    r.ords.push(o);
+                    if cached {
+                        _ = dirty.remove(&o);
+                        _ = in_cache.remove(&o);
+                    } else if in_cache.contains(&o) {
+                        _ = dirty.insert(o);
+                    }
+                }
+            }
+            COp::Prune(_) | COp::Check { .. } | COp::Latest { .. } | COp::List => {
+                if cached {
+                    in_cache.extend(live.iter().copied());
+                }
+            }
+            COp::Prefix { sel, .. } => {
+                let o = pick_idx(*sel, created);
+                r.ords.push(o);
+                if cached && live.contains(&o) {
+                    _ = in_cache.insert(o);
+                }
+            }
+            COp::Full { sel, api } => {
+                let o = pick_idx(*sel, created);
+                r.ords.push(o);
+                if let FullApi::Mixed(o2) = api {
+                    r.ords.push(pick_idx(*o2, created));
+                }
+                if cached {
+                    if !matches!(api, FullApi::Mixed(_)) && dirty.contains(&o) {
+                        r.known_hit = true;
+                        known = true;
+                    }
+                    for o in &r.ords {
+                        if live.contains(o) {
+                            _ = in_cache.insert(*o);
+                        }
+                    }
+                }
+            }
+            COp::Dump { snap, .. } => {
+                if !live.is_empty() {
+                    let o = live[pick_idx(*snap, live.len())];
+                    r.ords.push(o);
+                    if cached {
+                        _ = in_cache.insert(o);
+                    }
+                }
+            }
+            COp::Plant(p) => match p {
+                Plant::Stale { tpe: PType::Snapshot, sel } => {
+                    if !forgotten.is_empty() {
+                        let o = forgotten[pick_idx(*sel, forgotten.len())];
+                        r.ords.push(o);
+                        _ = dirty.insert(o);
+                        _ = in_cache.insert(o);
+                    }
+                }
+                Plant::WrongSize { tpe: PType::Snapshot, sel, .. } => {
+                    if !live.is_empty() {
+                        let o = live[pick_idx(*sel, live.len())];
+                        r.ords.push(o);
+                        _ = dirty.insert(o);
+                        _ = in_cache.insert(o);
+                    }
+                }
+                _ => {}
+            },
+        }
+        out.push(r);
+    }
+    (out, known)
+}
+
+// ---------------------------------------------------------------------------------------------
+// interpreter
+
+#[derive(Debug, Clone)]
+struct Snap {
+    id: SnapshotId,
+    #[allow(dead_code)]
+    time: i64,
+    tree: String,
+}
+
+/// result of one operation: `shape` is compared between the two runs, `detail` is not
+#[derive(Debug, Clone)]
+struct Res {
+    shape: String,
+    detail: String,
+    inconclusive: bool,
+    /// for plants: something was written
+    planted: bool,
+}
+
+impl Res {
+    fn shape(s: impl Into<String>) -> Self {
+        Self { shape: s.into(), detail: String::new(), inconclusive: false, planted: false }
+    }
+    fn err(detail: impl Into<String>) -> Self {
+        Self { shape: "error".into(), detail: detail.into(), inconclusive: false, planted: false }
+    }
+    fn noop() -> Self {
+        Self::shape("noop")
+    }
+}
+
+fn hex_of(id: &Id) -> String {
+    id.to_hex().as_str().to_string()
+}
+
+fn snap_shape(s: &SnapshotFile) -> String {
+    format!("(t={} tree={})", s.time.timestamp().as_second(), hex_of(&s.tree))
+}
+
+fn h16(b: &[u8]) -> String {
+    hex::encode(&sha256(b)[..8])
+}
+
+struct Run {
+    cfg: RepoCfg,
+    storage: Arc<Storage>,
+    /// Some = the mixed run (cached handle available); None = reference run, everything uncached
+    cache: Option<PathBuf>,
+    tree: MNode,
+    clock: i64,
+    tick: i64,
+    /// by ordinal; None = the backup failed
+    snaps: Vec<Option<Snap>>,
+    /// files that were removed from the repository during the history (mixed run only)
+    grave: BTreeMap<(u8, Id), Bytes>,
+}
+
+impl Run {
+    fn repo_id_hex(&self) -> String {
+        hex_of(&self.cfg.config_file().id)
+    }
+
+    fn cache_root(&self) -> Option<PathBuf> {
+        self.cache.as_ref().map(|c| c.join(self.repo_id_hex()))
+    }
+
+    fn open(&self, cached: bool) -> Result<RepoOpen, String> {
+        let opts = match (&self.cache, cached) {
+            (Some(dir), true) => RepositoryOptions::default().cache_dir(dir.clone()),
+            _ => RepositoryOptions::default().no_cache(true),
+        };
+        let repo = Repository::new(&opts, &backends(self.storage.handle()))
+            .map_err(|e| estr(&e))?
+            .open(&self.cfg.credentials())
+            .map_err(|e| format!("open: {}", estr(&e)))?;
+        if cached {
+            if let Some(root) = self.cache_root() {
+                if !root.is_dir() {
+                    return Err("HARNESS: the cached handle did not create its cache directory".into());
+                }
+            }
+        }
+        Ok(repo)
+    }
+
+    fn snap(&self, ord: usize) -> Option<&Snap> {
+        self.snaps.get(ord).and_then(|s| s.as_ref())
+    }
+
+    fn exec(&mut self, step: &Step, r: &Resolved) -> Res {
+        let cached = step.cached && self.cache.is_some();
+        match &step.op {
+            COp::Backup { edits, parent } => {
+                self.tick += 1;
+                for e in edits {
+                    _ = apply_edit(&mut self.tree, e, self.tick);
+                }
+                self.clock += 100;
+                let t = self.clock;
+                let opts: BackupOptions = if *parent { BackupOptions::default() } else { force_opts() };
+                let res = guarded(|| -> Result<SnapshotFile, String> {
+                    let repo = self
+                        .open(cached)?
+                        .to_indexed_ids()
+                        .map_err(|e| format!("to_indexed_ids: {}", estr(&e)))?;
+                    backup_tree(&repo, &self.tree, &ReadSchedule::default(), &opts, snap_template(t, "host", "", ""))
+                });
+                match res {
+                    Ok(Ok(s)) => {
+                        let sn = Snap { id: s.id, time: t, tree: hex_of(&s.tree) };
+                        let shape = format!("ok tree={}", sn.tree);
+                        self.snaps.push(Some(sn));
+                        Res::shape(shape)
+                    }
+                    Ok(Err(e)) => {
+                        self.snaps.push(None);
+                        Res::err(e)
+                    }
+                    Err(p) => {
+                        self.snaps.push(None);
+                        Res::err(format!("panic: {p}"))
+                    }
+                }
+            }
+            COp::Forget { .. } => {
+                let ids: Vec<SnapshotId> = r.ords.iter().filter_map(|o| self.snap(*o)).map(|s| s.id).collect();
+                if ids.is_empty() {
+                    return Res::noop();
+                }
+                self.unit(cached, |repo| {
+                    repo.delete_snapshots(&ids)
+                        .map_err(|e| format!("delete_snapshots: {}", estr(&e)))
+                })
+            }
+            COp::Prune(p) => {
+                let opts = p.options(&self.cfg);
+                self.unit(cached, |repo| {
+                    let plan = repo.prune_plan(&opts).map_err(|e| format!("prune_plan: {}", estr(&e)))?;
+                    repo.prune(&opts, plan).map_err(|e| format!("prune: {}", estr(&e)))
+                })
+            }
+            COp::Check { read_data, trust_cache } => match self.open(cached) {
+                Err(e) => Res::err(e),
+                Ok(repo) => match check_v(&repo, *read_data, *trust_cache) {
+                    CheckVerdict::Clean => Res::shape("check clean"),
+                    CheckVerdict::Errors(e) => Res { detail: e, ..Res::shape("check errors") },
+                    CheckVerdict::Inconclusive(e) => Res { inconclusive: true, detail: e, ..Res::shape("check ?") },
+                },
+            },
+            COp::Latest { n } => {
+                let s = if *n == 0 { "latest".to_string() } else { format!("latest~{n}") };
+                self.lookup(cached, move |repo| repo.get_snapshot_from_str(&s, |_| true).map(|s| vec![s]))
+            }
+            COp::Prefix { len, many, .. } => {
+                let Some(sn) = r.ords.first().and_then(|o| self.snap(*o)) else {
+                    return Res::noop();
+                };
+                let pre = hex_of(&sn.id)[..usize::from(*len)].to_string();
+                let many = *many;
+                self.lookup(cached, move |repo| {
+                    if many {
+                        repo.get_snapshots(&[pre])
+                    } else {
+                        repo.get_snapshot_from_str(&pre, |_| true).map(|s| vec![s])
+                    }
+                })
+            }
+            COp::Full { api, .. } => {
+                let Some(sn) = r.ords.first().and_then(|o| self.snap(*o)) else {
+                    return Res::noop();
+                };
+                let full = hex_of(&sn.id);
+                match api {
+                    FullApi::FromStr => {
+                        self.lookup(cached, move |repo| repo.get_snapshot_from_str(&full, |_| true).map(|s| vec![s]))
+                    }
+                    FullApi::Many => self.lookup(cached, move |repo| repo.get_snapshots(&[full])),
+                    FullApi::Mixed(_) => {
+                        let Some(other) = r.ords.get(1).and_then(|o| self.snap(*o)) else {
+                            return Res::noop();
+                        };
+                        let pre = hex_of(&other.id)[..12].to_string();
+                        self.lookup(cached, move |repo| repo.get_snapshots(&[full, pre]))
+                    }
+                }
+            }
+            COp::List => self.lookup(cached, |repo| {
+                repo.get_all_snapshots().map(|mut v| {
+                    v.sort_by_key(|s| (s.time.timestamp().as_second(), hex_of(&s.tree)));
+                    v
+                })
+            }),
+            COp::Dump { file, .. } => {
+                let Some(sn) = r.ords.first().and_then(|o| self.snap(*o)) else {
+                    return Res::noop();
+                };
+                let pre = hex_of(&sn.id)[..16].to_string();
+                let file = *file;
+                let res = guarded(|| -> Result<String, String> {
+                    let repo = self
+                        .open(cached)?
+                        .to_indexed()
+                        .map_err(|e| format!("to_indexed: {}", estr(&e)))?;
+                    let snap = repo
+                        .get_snapshot_from_str(&pre, |_| true)
+                        .map_err(|e| format!("get snapshot: {}", estr(&e)))?;
+                    let got = read_snapshot(&repo, &snap, false)?;
+                    let mut listing = Vec::new();
+                    for (p, e) in &got {
+                        listing.extend_from_slice(p);
+                        listing.push(0);
+                        listing.extend_from_slice(&serde_json::to_vec(&e.node).map_err(|e| e.to_string())?);
+                        listing.push(0);
+                    }
+                    let files: Vec<_> = got.iter().filter(|(_, e)| e.node.is_file()).collect();
+                    let mut shape = format!("dump {} entries={} ls={}", snap_shape(&snap), got.len(), h16(&listing));
+                    if !files.is_empty() {
+                        let (p, e) = files[pick_idx(file, files.len())];
+                        let mut buf = Vec::new();
+                        repo.dump(&e.node, &mut buf).map_err(|e| format!("dump: {}", estr(&e)))?;
+                        shape.push_str(&format!(" file={} len={} bytes={}", h16(p), buf.len(), h16(&buf)));
+                    }
+                    Ok(shape)
+                });
+                match res {
+                    Ok(Ok(s)) => Res::shape(s),
+                    Ok(Err(e)) => Res::err(e),
+                    Err(p) => Res::err(format!("panic: {p}")),
+                }
+            }
+            COp::Plant(p) => {
+                if self.cache.is_none() {
+                    return Res::noop();
+                }
+                match self.plant(p, r) {
+                    Some(what) => Res { planted: true, detail: what, ..Res::noop() },
+                    None => Res::noop(),
+                }
+            }
+        }
+    }
+
+    fn unit(&self, cached: bool, f: impl FnOnce(&RepoOpen) -> Result<(), String>) -> Res {
+        match guarded(|| f(&self.open(cached)?)) {
+            Ok(Ok(())) => Res::shape("ok"),
+            Ok(Err(e)) => Res::err(e),
+            Err(p) => Res::err(format!("panic: {p}")),
+        }
+    }
+
+    fn lookup(
+        &self,
+        cached: bool,
+        f: impl FnOnce(&RepoOpen) -> Result<Vec<SnapshotFile>, Box<rustic_core::RusticError>>,
+    ) -> Res {
+        let r = guarded(|| -> Result<Vec<SnapshotFile>, String> {
+            let repo = self.open(cached)?;
+            f(&repo).map_err(|e| estr(&e))
+        });
+        match r {
+            Ok(Ok(v)) => Res::shape(format!("found [{}]", v.iter().map(snap_shape).collect::<Vec<_>>().join(" "))),
+            Ok(Err(e)) if e.starts_with("HARNESS") => Res::shape(e),
+            Ok(Err(e)) => Res { detail: e, ..Res::shape("not found") },
+            Err(p) => Res::err(format!("panic: {p}")),
+        }
+    }
+
+    // ----- plants ---------------------------------------------------------------------------
+
+    fn canonical(&self, tpe: PType, id: &Id) -> PathBuf {
+        let h = hex_of(id);
+        self.cache_root().expect("cache").join(tpe.dirname()).join(&h[..2]).join(&h)
+    }
+
+    /// existing files of a type; for packs, tree packs first (only those are ever cached)
+    fn existing(&self, tpe: PType) -> Vec<Id> {
+        let ids = self.storage.ids(tpe.ft());
+        if tpe != PType::Pack {
+            return ids;
+        }
+        let key = self.cfg.key64();
+        let (mut trees, mut rest): (Vec<Id>, Vec<Id>) = (Vec::new(), Vec::new());
+        for id in ids {
+            let is_tree = self
+                .storage
+                .get(FileType::Pack, &id)
+                .and_then(|raw| parse_pack(&key, &raw).ok())
+                .is_some_and(|pi| !pi.entries.is_empty() && pi.entries.iter().all(|e| e.tpe == BType::Tree));
+            if is_tree { trees.push(id) } else { rest.push(id) }
+        }
+        if trees.is_empty() { rest } else { trees }
+    }
+
+    fn write(path: &Path, data: &[u8]) -> bool {
+        if let Some(parent) = path.parent() {
+            if fs::create_dir_all(parent).is_err() {
+                return false;
+            }
+        }
+        if path.is_dir() {
+            return false;
+        }
+        fs::write(path, data).is_ok()
+    }
+
+    /// returns a description if something was planted
+    fn plant(&self, p: &Plant, r: &Resolved) -> Option<String> {
+        let root = self.cache_root()?;
+        match p {
+            Plant::Stale { tpe, sel } => {
+                let (id, data) = if *tpe == PType::Snapshot {
+                    let sn = r.ords.first().and_then(|o| self.snap(*o))?;
+                    let id: Id = *sn.id;
+                    // only if it really is gone from the repository
+                    if self.storage.get(FileType::Snapshot, &id).is_some() {
+                        return None;
+                    }
+                    (id, self.grave.get(&(tidx(FileType::Snapshot), id))?.clone())
+                } else {
+                    let t = tidx(tpe.ft());
+                    let cands: Vec<_> = self
+                        .grave
+                        .iter()
+                        .filter(|((ft, id), _)| *ft == t && self.storage.get(tpe.ft(), id).is_none())
+                        .collect();
+                    if cands.is_empty() {
+                        return None;
+                    }
+                    let ((_, id), data) = cands[pick_idx(*sel, cands.len())];
+                    (*id, data.clone())
+                };
+                Self::write(&self.canonical(*tpe, &id), &data)
+                    .then(|| format!("stale {} file {}", tpe.name(), &hex_of(&id)[..8]))
+            }
+            Plant::WrongSize { tpe, sel, change } => {
+                let id: Id = if *tpe == PType::Snapshot {
+                    *r.ords.first().and_then(|o| self.snap(*o))?.id
+                } else {
+                    let ids = self.existing(*tpe);
+                    if ids.is_empty() {
+                        return None;
+                    }
+                    ids[pick_idx(*sel, ids.len())]
+                };
+                let valid = self.storage.get(tpe.ft(), &id)?;
+                let data: Vec<u8> = match change {
+                    SizeChange::Truncate(k) => valid[..valid.len() * usize::from(*k) / 256].to_vec(),
+                    SizeChange::Extend(n) => {
+                        let mut v = valid.to_vec();
+                        v.extend((0..*n).map(|i| (i as u8) ^ 0xA5));
+                        v
+                    }
+                    SizeChange::Garbage(n) => (0..*n).map(|i| (i as u8).wrapping_mul(7) ^ 0x3C).collect(),
+                };
+                if data.len() == valid.len() {
+                    return None;
+                }
+                Self::write(&self.canonical(*tpe, &id), &data).then(|| {
+                    format!("{} file {} with {} instead of {} bytes", tpe.name(), &hex_of(&id)[..8], data.len(), valid.len())
+                })
+            }
+            Plant::Foreign { tpe, kind } => {
+                let dir = root.join(tpe.dirname());
+                let made_up = |seed: u64| -> Id { Id::new(sha256(&seed.to_le_bytes())) };
+                match kind {
+                    Foreign::NonHex(v) => {
+                        let path = match v {
+                            0 => dir.join("README.txt"),
+                            1 => dir.join("ab").join("notes"),
+                            2 => dir.join("ab").join("g".repeat(64)),
+                            3 => dir.join("ab").join("AB".repeat(32)),
+                            4 => dir.join("cd").join("cd".repeat(32)[..63].to_string()),
+                            _ => dir.join("cd").join(format!("{}0", "cd".repeat(32))),
+                        };
+                        Self::write(&path, b"not a cache file").then(|| format!("foreign file {}", path.display()))
+                    }
+                    Foreign::TmpLeftover(sel) => {
+                        let ids = self.existing(*tpe);
+                        let (id, data) = if ids.is_empty() {
+                            (made_up(u64::from(*sel)), Bytes::from_static(b"partial"))
+                        } else {
+                            let id = ids[pick_idx(*sel, ids.len())];
+                            let d = self.storage.get(tpe.ft(), &id)?;
+                            (id, d.slice(..d.len() / 2))
+                        };
+                        let mut path = self.canonical(*tpe, &id).into_os_string();
+                        path.push("-tmp-");
+                        let path = PathBuf::from(path);
+                        Self::write(&path, &data).then(|| format!("tmp leftover {}", path.display()))
+                    }
+                    Foreign::SubDir(v, sel) => {
+                        let path = match v {
+                            0 => {
+                                let d = dir.join("ab").join("subdir");
+                                return (fs::create_dir_all(&d).is_ok() && Self::write(&d.join("x"), b"x"))
+                                    .then(|| format!("sub-directory {}", d.display()));
+                            }
+                            1 => self.canonical(*tpe, &made_up(u64::from(*sel) | 1 << 40)),
+                            _ => {
+                                let ids = self.existing(*tpe);
+                                if ids.is_empty() {
+                                    return None;
+                                }
+                                self.canonical(*tpe, &ids[pick_idx(*sel, ids.len())])
+                            }
+                        };
+                        if path.exists() {
+                            return None;
+                        }
+                        fs::create_dir_all(&path).is_ok().then(|| format!("directory at {}", path.display()))
+                    }
+                    Foreign::HexNeverHad { seed, len } => {
+                        let id = made_up(*seed);
+                        if self.storage.get(tpe.ft(), &id).is_some() {
+                            return None;
+                        }
+                        let data: Vec<u8> = (0..*len).map(|i| (i as u8).wrapping_mul(31) ^ (*seed as u8)).collect();
+                        Self::write(&self.canonical(*tpe, &id), &data)
+                            .then(|| format!("{} file of an unknown id {}", tpe.name(), &hex_of(&id)[..8]))
+                    }
+                    Foreign::HexMisplaced { seed, place } => {
+                        let id = made_up(*seed);
+                        let h = hex_of(&id);
+                        let path = if *place == 0 {
+                            dir.join(&h)
+                        } else {
+                            // the shard of another id
+                            let other = format!("{:02x}", id_bytes(&id)[0] ^ 0x80);
+                            dir.join(other).join(&h)
+                        };
+                        Self::write(&path, b"misplaced").then(|| format!("misplaced file {}", path.display()))
+                    }
+                }
+            }
+        }
+    }
+
+    /// files at their canonical place in the cache: (id, size)
+    fn cache_files(&self, tpe: PType) -> Vec<(Id32, u64)> {
+        let mut out = Vec::new();
+        let Some(root) = self.cache_root() else { return out };
+        let Ok(shards) = fs::read_dir(root.join(tpe.dirname())) else { return out };
+        let is_hex = |s: &str| s.bytes().all(|b| b.is_ascii_digit() || (b'a'..=b'f').contains(&b));
+        for sh in shards.flatten() {
+            let shn = sh.file_name();
+            let Some(shn) = shn.to_str() else { continue };
+            if shn.len() != 2 || !is_hex(shn) {
+                continue;
+            }
+            let Ok(files) = fs::read_dir(sh.path()) else { continue };
+            for f in files.flatten() {
+                let name = f.file_name();
+                let Some(name) = name.to_str() else { continue };
+                if name.len() != 64 || !is_hex(name) || !name.starts_with(shn) {
+                    continue;
+                }
+                let Ok(md) = fs::symlink_metadata(f.path()) else { continue };
+                if !md.is_file() {
+                    continue;
+                }
+                let mut id = [0u8; 32];
+                if hex::decode_to_slice(name, &mut id).is_ok() {
+                    out.push((id, md.len()));
+                }
+            }
+        }
+        out.sort();
+        out
+    }
+
+    /// the statement's second sentence, for one file type
+    fn cache_subset_of_repo(&self, tpe: PType) -> Result<(), String> {
+        let have: BTreeMap<Id32, u64> = self
+            .storage
+            .ids(tpe.ft())
+            .iter()
+            .map(|id| (id_bytes(id), self.storage.get(tpe.ft(), id).map_or(0, |d| d.len() as u64)))
+            .collect();
+        for (id, size) in self.cache_files(tpe) {
+            match have.get(&id) {
+                None => {
+                    return Err(format!(
+                        "the cache still holds {} file {} which the repository does not list",
+                        tpe.name(),
+                        &hex::encode(id)[..8]
+                    ));
+                }
+                Some(s) if *s != size => {
+                    return Err(format!(
+                        "the cache holds {} file {} with {size} bytes, the repository's has {s}",
+                        tpe.name(),
+                        &hex::encode(id)[..8]
+                    ));
+                }
+                _ => {}
+            }
+        }
+        Ok(())
+    }
+}
+
+/// `check` with the cache-related option; same retry rule as `repo::check_verdict`
+fn check_v(repo: &RepoOpen, read_data: bool, trust_cache: bool) -> CheckVerdict {
+    let run = || {
+        guarded(|| {
+            let opts = CheckOptions::default().read_data(read_data).trust_cache(trust_cache);
+            match repo.check(opts) {
+                Err(e) => Err(format!("check returned an error: {}", estr(&e))),
+                Ok(res) => {
+                    if res.is_ok().is_err() {
+                        let errs: Vec<String> = res
+                            .0
+                            .iter()
+                            .filter(|e| format!("{:?}", e.0) == "Error")
+                            .map(|e| format!("{:?}", e.1))
+                            .take(4)
+                            .collect();
+                        Err(format!("check reports errors: {errs:?}"))
+                    } else {
+                        Ok(())
+                    }
+                }
+            }
+        })
+    };
+    let mut last = String::new();
+    for attempt in 0..5 {
+        match run() {
+            Ok(Ok(())) => return CheckVerdict::Clean,
+            Ok(Err(e)) => return CheckVerdict::Errors(e),
+            Err(p) if p.contains("index still in use") => {
+                last = p;
+                std::thread::sleep(std::time::Duration::from_millis(40 * (attempt + 1)));
+            }
+            Err(p) => return CheckVerdict::Errors(format!("check panicked: {p}")),
+        }
+    }
+    CheckVerdict::Inconclusive(last)
+}
+
+// ---------------------------------------------------------------------------------------------
+// logical content of a repository, read with the independent decoder
+
+#[derive(Debug, PartialEq, Eq)]
+struct Logical {
+    /// (time, tree) of every snapshot file
+    snaps: BTreeSet<(String, String)>,
+    indexed: BTreeSet<BlobKey>,
+    reachable: BTreeSet<BlobKey>,
+}
+
+fn logical(storage: &Arc<Storage>, cfg: &RepoCfg) -> Result<Logical, String> {
+    let key = cfg.key64();
+    let view = index_view(storage, &key)?;
+    let mut snaps = BTreeSet::new();
+    let mut reach = BTreeSet::new();
+    for id in storage.ids(FileType::Snapshot) {
+        let v = snapshot_json(storage, &key, &id).map_err(|e| format!("snapshot {id:?}: {e}"))?;
+        let time = v["time"].as_str().unwrap_or("").to_string();
+        let tree = v["tree"].as_str().unwrap_or("").to_string();
+        let root = vpcore::fmt::parse_id(&tree).ok_or("snapshot without a tree id")?;
+        reach.extend(reachable(storage, &key, &view, &root).map_err(|e| format!("snapshot {}: {e}", &hex_of(&id)[..8]))?);
+        _ = snaps.insert((time, tree));
+    }
+    let packs: BTreeSet<Id32> = storage.ids(FileType::Pack).iter().map(id_bytes).collect();
+    for b in &reach {
+        match view.blobs.get(b) {
+            None => return Err(format!("{} blob {} of a snapshot is not indexed", b.0.as_str(), &hex::encode(b.1)[..8])),
+            Some(ps) if !ps.iter().any(|p| packs.contains(p)) => {
+                return Err(format!("{} blob {} of a snapshot is in no existing pack", b.0.as_str(), &hex::encode(b.1)[..8]));
+            }
+            _ => {}
+        }
+    }
+    Ok(Logical {
+        snaps,
+        indexed: view.blobs.keys().copied().collect(),
+        reachable: reach,
+    })
+}
+
+// ---------------------------------------------------------------------------------------------
+
+fn op_name(op: &COp) -> &'static str {
+    match op {
+        COp::Backup { .. } => "backup",
+        COp::Forget { .. } => "forget",
+        COp::Prune(_) => "prune",
+        COp::Check { .. } => "check",
+        COp::Latest { .. } => "get-latest",
+        COp::Prefix { .. } => "get-by-prefix",
+        COp::Full { api: FullApi::Mixed(_), .. } => "get-by-full-id-and-prefix",
+        COp::Full { .. } => "get-by-full-id",
+        COp::List => "list",
+        COp::Dump { .. } => "dump",
+        COp::Plant(Plant::Stale { .. }) => "plant-stale",
+        COp::Plant(Plant::WrongSize { .. }) => "plant-wrong-size",
+        COp::Plant(Plant::Foreign { .. }) => "plant-foreign",
+    }
+}
+
+fn mutating(op: &COp) -> bool {
+    matches!(op, COp::Backup { .. } | COp::Forget { .. } | COp::Prune(_))
+}
+
+/// would this operation of the cached handle look at a planted file of this type? (by the kind
+/// of operation; used only for the non-triviality rule)
+fn touches(op: &COp, r: &Resolved, tpe: PType, plant: &Plant, plant_ords: &[usize]) -> bool {
+    match tpe {
+        PType::Snapshot => {
+            lists_snapshots(op)
+                || matches!(op, COp::Backup { parent: true, .. })
+                || matches!(op, COp::Full { .. } if r.ords.first().is_some_and(|o| plant_ords.contains(o)))
+        }
+        PType::Index => matches!(op, COp::Backup { .. } | COp::Prune(_) | COp::Check { .. } | COp::Dump { .. }),
+        PType::Pack => {
+            matches!(op, COp::Check { .. })
+                || (matches!(plant, Plant::WrongSize { .. })
+                    && matches!(op, COp::Prune(_) | COp::Dump { .. } | COp::Backup { parent: true, .. }))
+        }
+    }
+}
+
+pub fn run(c: &Case, ctx: &Ctx) -> Outcome {
+    let (resolved, known) = plan(c);
+    let mut out = Outcome::pass();
+    if known {
+        out = out.known(KEY_FULL_ID);
+        // development knob: behave as if the key were listed as known in known_findings.json
+        if !ctx.strict && std::env::var_os("VP_C19_ASSUME_KNOWN").is_some() {
+            return out.skip("matches the full-id predicate (VP_C19_ASSUME_KNOWN)");
+        }
+    }
+    for s in &c.ops {
+        let how = if matches!(s.op, COp::Plant(_)) { "" } else if s.cached { "_cached" } else { "_uncached" };
+        out = out.class(format!("op_{}{how}", op_name(&s.op)));
+    }
+
+    // initial state: init + one backup through the cached handle, then a byte-identical fork
+    let scratch = Scratch::new("c19");
+    let storage = Storage::new();
+    match init_repo(storage.handle(), &c.cfg) {
+        Ok(r) => drop(r),
+        Err(e) => return out.skip(format!("init failed: {}", first_words(&e))),
+    }
+    let mut a = Run {
+        cfg: c.cfg.clone(),
+        storage,
+        cache: Some(scratch.path().join("cache")),
+        tree: c.tree.clone(),
+        clock: 1_700_000_000,
+        tick: 1000,
+        snaps: Vec::new(),
+        grave: BTreeMap::new(),
+    };
+    let first = Step { cached: true, op: COp::Backup { edits: vec![], parent: false } };
+    let r0 = a.exec(&first, &Resolved::default());
+    if a.snap(0).is_none() {
+        return out.skip(format!("initial backup failed: {}", first_words(&r0.detail)));
+    }
+    let mut b = Run {
+        cfg: c.cfg.clone(),
+        storage: a.storage.fork(),
+        cache: None,
+        tree: a.tree.clone(),
+        clock: a.clock,
+        tick: a.tick,
+        snaps: a.snaps.clone(),
+        grave: BTreeMap::new(),
+    };
+
+    let mut changed_behind = false;
+    let mut cached_after_change = 0u64;
+    // effective plants not yet looked at: (type, plant, ordinals)
+    let mut pending: Vec<(PType, Plant, Vec<usize>)> = Vec::new();
+    let mut plants_touched = 0u64;
+    let mut plants_done = 0u64;
+    let mut all_prunes_complete = true;
+
+    for (i, (step, r)) in c.ops.iter().zip(&resolved).enumerate() {
+        let name = op_name(&step.op);
+        let before = a.storage.files();
+        a.storage.log.clear();
+        b.storage.log.clear();
+        let ra = a.exec(step, r);
+        let log = a.storage.log.snapshot();
+        for (k, v) in &before {
+            if k.0 != 0 && a.storage.get(crate::membe::tfrom(k.0), &k.1).is_none() {
+                _ = a.grave.insert(*k, v.clone());
+            }
+        }
+        let reference = Step { cached: false, op: step.op.clone() };
+        let rb = b.exec(&reference, r);
+
+        if ra.shape.starts_with("HARNESS") {
+            return Outcome { failure: Some(ra.shape), ..out };
+        }
+        if ra.inconclusive || rb.inconclusive {
+            return out.skip("check inconclusive (index hand-back race)");
+        }
+        if let COp::Prune(p) = &step.op {
+            all_prunes_complete &= complete(p);
+        }
+        // bookkeeping for the non-triviality rule and the histogram
+        if let COp::Plant(p) = &step.op {
+            if ra.planted {
+                plants_done += 1;
+                let tpe = match p {
+                    Plant::Stale { tpe, .. } | Plant::WrongSize { tpe, .. } | Plant::Foreign { tpe, .. } => *tpe,
+                };
+                pending.push((tpe, p.clone(), r.ords.clone()));
+                out = out.class(format!("planted_{}_{}", &name[6..], tpe.name()));
+            } else {
+                out = out.class("plant_without_effect");
+            }
+        } else if step.cached {
+            if changed_behind {
+                cached_after_change += 1;
+            }
+            let n = pending.len();
+            pending.retain(|(tpe, p, ords)| !touches(&step.op, r, *tpe, p, ords));
+            plants_touched += (n - pending.len()) as u64;
+        } else if mutating(&step.op) && ra.shape != "noop" {
+            changed_behind = true;
+        }
+
+        if ra.shape != rb.shape {
+            let which = if matches!(step.op, COp::Plant(_)) { "" } else if step.cached { " through the cached handle" } else { " through the uncached handle" };
+            let msg = format!(
+                "op #{i} {name}{which}: result differs from the all-uncached reference run: `{}` vs reference `{}`{}{}{}",
+                ra.shape,
+                rb.shape,
+                if r.known_hit { " [full id of a snapshot whose cache entry went out of date behind the cache]" } else { "" },
+                if ra.detail.is_empty() { String::new() } else { format!("; mixed run: {}", first_words(&ra.detail)) },
+                if rb.detail.is_empty() { String::new() } else { format!("; reference: {}", first_words(&rb.detail)) },
+            );
+            return Outcome { failure: Some(msg), ..out };
+        }
+
+        // after a listing through the cached handle: cache ⊆ repository, sizes equal
+        if step.cached && !matches!(step.op, COp::Plant(_)) {
+            for tpe in [PType::Snapshot, PType::Index] {
+                let listed = log.iter().any(|o| o.kind == OpKind::List && o.tpe == tpe.ft() && o.ok);
+                if listed {
+                    out = out.class(format!("listed_{}_cached", tpe.name()));
+                    if let Err(e) = a.cache_subset_of_repo(tpe) {
+                        return Outcome {
+                            failure: Some(format!("after op #{i} {name} through the cached handle, which listed the {} files: {e}", tpe.name())),
+                            ..out
+                        };
+                    }
+                }
+            }
+        }
+    }
+
+    out.nontrivial = cached_after_change > 0 || plants_touched > 0;
+    out = out
+        .class_if(cached_after_change > 0, "cached_op_after_change_behind_cache")
+        .class_if(plants_touched > 0, "planted_file_then_touched")
+        .class_if(known, "matches_full_id_predicate")
+        .count("plants_effective", plants_done)
+        .count("plants_touched", plants_touched)
+        .count("cached_ops_after_change_behind", cached_after_change);
+
+    // final logical content
+    let lb = match logical(&b.storage, &c.cfg) {
+        Ok(l) => l,
+        Err(e) => return out.skip(format!("reference run ends inconsistent: {}", first_words(&e))),
+    };
+    let la = match logical(&a.storage, &c.cfg) {
+        Ok(l) => l,
+        Err(e) => {
+            return Outcome {
+                failure: Some(format!("the repository of the mixed cached/uncached run ends inconsistent (the reference is fine): {e}")),
+                ..out
+            };
+        }
+    };
+    if la.snaps != lb.snaps {
+        return Outcome {
+            failure: Some(format!("final snapshot sets (time, tree) differ: mixed run {:?}, reference {:?}", la.snaps, lb.snaps)),
+            ..out
+        };
+    }
+    if la.reachable != lb.reachable {
+        return Outcome { failure: Some("final reachable blob sets differ".into()), ..out };
+    }
+    if all_prunes_complete {
+        out = out.class("indexed_set_compared_exactly");
+        if la.indexed != lb.indexed {
+            let only_a = la.indexed.difference(&lb.indexed).count();
+            let only_b = lb.indexed.difference(&la.indexed).count();
+            return Outcome {
+                failure: Some(format!("final indexed blob sets differ: {only_a} blobs only in the mixed run, {only_b} only in the reference")),
+                ..out
+            };
+        }
+    }
+    // final verdict of an uncached check on both
+    let va = a.open(false).map(|r| check_v(&r, false, false));
+    let vb = b.open(false).map(|r| check_v(&r, false, false));
+    match (va, vb) {
+        (Ok(CheckVerdict::Errors(e)), Ok(CheckVerdict::Clean)) => Outcome {
+            failure: Some(format!("final check: errors in the repository of the mixed run, reference clean: {e}")),
+            ..out
+        },
+        _ => out,
+    }
+}
+
+fn first_words(s: &str) -> String {
+    let l = s.lines().next().unwrap_or("");
+    let mut cut = l.len().min(300);
+    while !l.is_char_boundary(cut) {
+        cut -= 1;
+    }
+    l[..cut].to_string()
+}
 
 pub fn spec() -> PropSpec {
     PropSpec {
         id: "C19",
         level: "exploration",
-        rule: "",
-        assumptions: vec![],
-        subs: vec![],
+        rule: "proptest: configuration x source tree x history of 3–11 (quick) / 3–18 (thorough) steps after an initial backup through the cached handle. Steps: backup of the edited source (with/without parent), forget of live snapshots, prune (generated options; 60 % forced to max-unused 0 / unlimited repack), check (read-data, trust-cache), snapshot lookup by `latest`/`latest~N`, by id prefix (8–40 hex chars; both lookup APIs), by full id (get_snapshot_from_str, get_snapshots, get_snapshots mixed with a prefix), list all, list + dump a file of a live snapshot; every step is assigned to the cached handle (fresh Repository, cache_dir = per-case scratch dir) or the uncached handle on the same storage. Plant steps write into the cache directory: stale files (valid bytes of snapshot/index/pack files removed earlier in the history), truncated (k/256 of the valid bytes) and over-long (valid bytes + 1–399 bytes) files under existing ids (tree packs for packs), foreign files (non-hex / upper-case / 63- and 65-char names, `<id>-tmp-` leftovers, sub-directories, a directory where a cache file belongs, files under ids the repository never had). Reference = same history all uncached from a byte-identical fork of the initial storage. Non-trivial = at least one step through the cached handle after a mutating step through the uncached handle, or at least one effective plant followed by a step of the cached handle of a kind that lists or reads that file type; distinct by hash of the case.",
+        assumptions: vec![
+            "results are compared by (snapshot time, tree id), found/not-found, sorted listings, hashes of ls output and dumped bytes, check verdict clean/errors: file ids contain random nonces and differ between the two runs",
+            "the indexed blob set is compared exactly only if every prune of the history removes all unused blobs (max-unused 0, unlimited repack, no keep-pack); otherwise which unused blobs survive depends on pack ids; the reachable sets and reachable ⊆ indexed ⊆ existing packs are always compared",
+            "id prefixes have at least 8 hex characters so that ambiguity does not depend on the random ids",
+            "same-size different-content cache files are not planted (outside the statement); over-long files are the valid bytes plus a suffix, truncated files are a prefix of the valid bytes",
+            "cache ⊆ repository is judged for files at their canonical place <type dir>/<2 hex>/<64 hex> after every step of the cached handle during which the storage logged a listing of that type",
+            "a persistent index hand-back race of check is counted as skipped, not judged",
+        ],
+        subs: vec![Box::new(Sub {
+            name: "history",
+            cases_quick: 250,
+            cases_thorough: 8000,
+            max_shrink_iters: 300,
+            strategy,
+            run,
+        }) as Box<dyn DynSub>],
         extra: None,
     }
 }
